@@ -592,7 +592,7 @@ err_t botpOCRARand(char* otp, const char* suite, const octet key[],
 {
 	botp_ocra_st* state;
 	// предварительно проверить входные данные
-	if (!strIsValid(suite) || !memIsValid(key, key_len))
+	if (suite == 0 || !strIsValid(suite) || !memIsValid(key, key_len))
 		return ERR_BAD_INPUT;
 	// создать состояние
 	state = (botp_ocra_st*)blobCreate(botpOCRA_keep());
@@ -640,7 +640,7 @@ err_t botpOCRAVerify(const char* otp, const char* suite, const octet key[],
 	botp_ocra_st* state;
 	bool_t success;
 	// предварительно проверить входные данные
-	if (!strIsValid(suite) || !memIsValid(key, key_len))
+	if (suite == 0 || !strIsValid(suite) || !memIsValid(key, key_len))
 		return ERR_BAD_INPUT;
 	// создать состояние
 	state = (botp_ocra_st*)blobCreate(botpOCRA_keep());
